@@ -39,7 +39,7 @@ TypesExec == [
                  nl |-> Rs(Nn(Li(Nm("T")))), nlnn |-> Rs(Nn(Li(Nn(Nm("T"))))), ll |-> Rs(Li(Li(Nn(Nm("T"))))),
                  p |-> Rs(Nm("P")), np |-> Rs(Nn(Nm("P"))), lp |-> Rs(Li(Nm("P"))), u |-> Rs(Nm("U")), lu |-> Rs(Li(Nn(Nm("U")))),
                  s |-> Rs(Nm("String")), sn |-> Rs(Nn(Nm("String"))), i |-> Rs(Nm("Int")), e |-> Rs(Nm("E")),
-                 le |-> Rs(Li(Nm("E"))), ls |-> Rs(Li(Nn(Nm("String")))),
+                 le |-> Rs(Li(Nm("E"))), ls |-> Rs(Li(Nn(Nm("String")))), fl |-> Rs(Nm("Float")), lfl |-> Rs(Li(Nn(Nm("Float")))), idf |-> Rs(Nm("ID")), bo |-> Rs(Nm("Boolean")),
                  f |-> RsA(Nm("String"), FArgs), g |-> RsA(Nm("String"), GArgs), h |-> RsA(Nm("String"), HArgs) ]],
   T |-> [kind |-> "OBJECT", possible |-> {"T"}, possibleSeq |-> <<"T">>, values |-> <<>>, way |-> "key", fields |-> TFields],
   P |-> [kind |-> "INTERFACE", possible |-> {"A", "B"}, possibleSeq |-> <<"A", "B">>, values |-> <<>>, way |-> "", fields |-> PFields],
